@@ -212,8 +212,30 @@ def make_real(desc: dict):
     from moptipyapps.binpacking2d.instance import Instance
     if desc.get("cls") == "shipped":
         return Instance.from_resource(desc["name"])
-    return Instance(desc["name"], desc["W"], desc["H"],
+    import time
+    t0 = time.time()
+    inst = Instance(desc["name"], desc["W"], desc["H"],
                     [list(r) for r in desc["items"]])
+    # every other (cheap) instance is built a second time from an ndarray
+    # that already has the storage type the instance selects, and the
+    # caller then re-uses that buffer: "the matrix will be copied"
+    _ALIAS[0] += 1
+    if _ALIAS[0] % 2 == 0 and time.time() - t0 < 0.05:
+        arr = np.array(desc["items"], dtype=inst.dtype)
+        if rng_free_choice(_ALIAS[0]):
+            arr = np.asfortranarray(arr)
+        inst = Instance(desc["name"], desc["W"], desc["H"], arr)
+        arr[:, :] = 1           # the caller's buffer lives on
+        ALIAS_BUILT[0] += 1
+    return inst
+
+
+_ALIAS = [0]
+ALIAS_BUILT = [0]
+
+
+def rng_free_choice(k: int) -> bool:
+    return (k // 2) % 3 == 0
 
 
 def n_items(desc: dict) -> int:
